@@ -1,8 +1,8 @@
 package rules
 
 import (
-	"go/token"
 	"fmt"
+	"go/token"
 	"go/types"
 	"regexp"
 	"sort"
@@ -83,9 +83,9 @@ var switchExceptions = map[string]map[string]string{
 		"dig.resultObject": "containers are descended into by walkResult; only leaves carry keys",
 		"dig.resultList":   "same",
 	},
-	"dig.getParamOrder": {"dig.paramList": "parameter lists are not nested (X-valueset)"},
-	"(*dig.graphHolder).EdgesFrom": {"*": "dispatch on graph node kinds, see X-orders for their value set"},
-	"(*dig.Scope).Scope":           {"*": "dispatch on graph node kinds, see X-orders"},
+	"dig.getParamOrder":               {"dig.paramList": "parameter lists are not nested (X-valueset)"},
+	"(*dig.graphHolder).EdgesFrom":    {"*": "dispatch on graph node kinds, see X-orders for their value set"},
+	"(*dig.Scope).Scope":              {"*": "dispatch on graph node kinds, see X-orders"},
 	"(*dig.Scope).cycleDetectedError": {"*": "only constructor nodes are named in a cycle path"},
 }
 
@@ -809,7 +809,9 @@ func ruleViz(rule string) RuleFn {
 				if dashedPred == nil || plainPred == nil {
 					return
 				}
-				opt := an.BoolEdges(fn, func(v ssa.Value) bool { return strings.HasSuffix(an.Norm(v), ".Optional") && strings.HasPrefix(an.Norm(v), "p:c.Params[") }, true)
+				opt := an.BoolEdges(fn, func(v ssa.Value) bool {
+					return strings.HasSuffix(an.Norm(v), ".Optional") && strings.HasPrefix(an.Norm(v), "p:c.Params[")
+				}, true)
 				if len(opt) != 1 {
 					return
 				}
@@ -819,7 +821,9 @@ func ruleViz(rule string) RuleFn {
 					good = true
 				}
 				// or: the plain value, too, arrives through a block of its own, reachable only over the false edge
-				optF := an.BoolEdges(fn, func(v ssa.Value) bool { return strings.HasSuffix(an.Norm(v), ".Optional") && strings.HasPrefix(an.Norm(v), "p:c.Params[") }, false)
+				optF := an.BoolEdges(fn, func(v ssa.Value) bool {
+					return strings.HasSuffix(an.Norm(v), ".Optional") && strings.HasPrefix(an.Norm(v), "p:c.Params[")
+				}, false)
 				if h == nil && plainPred != opt[0].From && len(optF) == 1 {
 					if h2, _ := an.PathTo(fn, nil, an.IsInstr(plainPred.Instrs[0]), an.NewGates().AddEdges(optF...)); h2 == nil {
 						good = true
